@@ -103,3 +103,35 @@ Proof. vm_compute. reflexivity. Qed.
 
 Lemma spanish_layer_is_live : builds_to cfg_new [units_toml; units_spanish] live_spanish = true.
 Proof. vm_compute. reflexivity. Qed.
+
+Lemma good_builds : exists files c, build cfg_new files = Done (ROk c).
+Proof.
+  exists w_good. assert (H : is_ok (build cfg_new w_good) = true) by (vm_compute; reflexivity).
+  destruct (build cfg_new w_good) as [[c|e]|s]; [exists c; reflexivity | |]; exfalso; exact (Bool.diff_false_true H).
+Qed.
+
+(* the two statements of C16 that are not proved in general hold on the shipped files *)
+Definition shipped_ok (files : list units_file) : bool :=
+  match build cfg_new files with
+  | Done (ROk c) =>
+      forallb (fun jd =>
+        let '(j, d) := jd in
+        negb (ue_expand_si (snd d)) ||
+        match nth_error (c_units c) j, final_tables files with
+        | Some u, (Some pt, Some st) =>
+            forallb (fun p =>
+              forallb (fun k =>
+                match find_unit c k with
+                | Some t => match nth_error (c_units c) t with
+                            | Some tu => Qeq_bool (ratio tu) (ratio u * sipre_ratio p) && pq_eqb (quantity tu) (quantity u)
+                            | None => false
+                            end
+                | None => false
+                end) (prefixed (pt p) (names u) ++ prefixed (st p) (symbols u))) all_sipre
+        | _, _ => false
+        end) (combine (seq 0 (length (declared files))) (declared files))
+  | _ => false
+  end.
+
+Example si_forms_shipped : shipped_ok [units_toml] = true /\ shipped_ok [units_toml; units_spanish] = true.
+Proof. split; vm_compute; reflexivity. Qed.
